@@ -219,6 +219,68 @@ def run (d : Option Doc) : List Event → Option Doc
   | [] => d
   | e :: es => run (step d e) es
 
+/-- `ServerState.documents` (and the project's sources): the entry of every URI.  URIs are
+numbered. -/
+def Store := Nat → Option Doc
+
+def Store.set (st : Store) (u : Nat) (d : Option Doc) : Store :=
+  fun v => if v = u then d else st v
+
+/-- Events of a workspace: an event of one document, or `workspace/didRenameFiles` for one file
+(`disk` = what `read_to_string(new path)` returns; the client has already moved the file). -/
+inductive WEvent where
+  | doc (u : Nat) (e : Event)
+  | renamed (old new : Nat) (disk : Option (List Char))
+deriving Repr, DecidableEq
+
+/-- `did_rename_files` for one file.  An OPEN document is moved by `rename_document`: the entry
+keeps `content`, `version` and `is_open`, the new key's source text is set to the content, whatever
+was tracked under the new URI is overwritten.  Otherwise the old entry is removed
+(`remove_document`) and the new path is registered from disk through `index_document`. -/
+def wstep (st : Store) : WEvent → Store
+  | .doc u e => st.set u (step (st u) e)
+  | .renamed o n disk =>
+    match st o with
+    | some d =>
+      if d.isOpen then ((st.set o none).set n (some { d with analysed := d.text }))
+      else
+        let st1 := st.set o none
+        st1.set n (step (st1 n) (.watchedChanged disk))
+    | none => st.set n (step (st n) (.watchedChanged disk))
+
+def wrun (st : Store) : List WEvent → Store
+  | [] => st
+  | e :: es => wrun (wstep st e) es
+
+/-! ### `semanticTokens/full/delta` -/
+
+/-- Length of the longest common prefix (`while prefix < min_len && previous[prefix] ==
+current[prefix]`). -/
+def lcp {α : Type} [DecidableEq α] : List α → List α → Nat
+  | a :: as, b :: bs => if a = b then lcp as bs + 1 else 0
+  | _, _ => 0
+
+/-- One `SemanticTokensEdit` in token units (the wire format multiplies `start` and
+`deleteCount` by 5). -/
+structure TokEdit (α : Type) where
+  start : Nat
+  deleteCount : Nat
+  data : List α
+deriving Repr, DecidableEq
+
+/-- `semantic_tokens_delta_edits(previous, current)`: nothing when equal, else one edit that
+replaces what lies between the common prefix and the common suffix — the suffix is searched only
+in what the prefix leaves of the SHORTER array (`suffix < min_len - prefix`). -/
+def deltaEdits {α : Type} [DecidableEq α] (previous current : List α) : List (TokEdit α) :=
+  if previous = current then []
+  else
+    let minLen := min previous.length current.length
+    let pre := lcp previous current
+    let suf := min (minLen - pre) (lcp previous.reverse current.reverse)
+    [{ start := pre,
+       deleteCount := previous.length - (pre + suf),
+       data := (current.drop pre).take (current.length - suf - pre) }]
+
 /-- Position and length of one semantic token as `semantic_tokens_to_lsp` computes them from the
 token's byte range `[a, b)`: `offset_to_line_col(content, a)` and the UTF-16 length of
 `content[a..b]` (`b - a` when the range is not sliceable). -/
@@ -385,6 +447,57 @@ def lfHistory (d : Option Doc) : List Event → Bool
       | some d' => lfHistory d' es
       | none => true)
 
+/-- The editor's open documents, by URI. -/
+def Store := Nat → Option Doc
+
+def Store.set (st : Store) (u : Nat) (d : Option Doc) : Store :=
+  fun v => if v = u then d else st v
+
+inductive WEvent where
+  | doc (u : Nat) (e : Event)
+  | renamed (old new : Nat)
+deriving Repr, DecidableEq
+
+/-- Renaming the file of an open document moves the buffer to the new URI — same text, same
+version, still open (not onto a URI that is open itself); renaming a file that is not open leaves
+every buffer alone. -/
+def wstep (st : Store) : WEvent → Option Store
+  | .doc u e => (step (st u) e).map fun d => st.set u d
+  | .renamed o n =>
+    match st o with
+    | some d =>
+      if n = o ∨ (st n).isNone then some ((st.set o none).set n (some d)) else none
+    | none => some st
+
+def wrun (st : Store) : List WEvent → Option Store
+  | [] => some st
+  | e :: es =>
+    match wstep st e with
+    | some st' => wrun st' es
+    | none => none
+
+/-- Guard of `c14_workspace_history`: `lfEvent` of the document concerned. -/
+def lfWEvent (st : Store) : WEvent → Bool
+  | .doc u e => lfEvent (st u) e
+  | .renamed .. => true
+
+def lfWHistory (st : Store) : List WEvent → Bool
+  | [] => true
+  | e :: es =>
+    lfWEvent st e &&
+    (match wstep st e with
+      | some st' => lfWHistory st' es
+      | none => true)
+
+/-- The editor applies one `SemanticTokensEdit` to the token array it holds (LSP 3.17:
+`start`, `deleteCount`, `data`). -/
+def applyTokEdit {α : Type} (held : List α) (e : Impl.TokEdit α) : List α :=
+  held.take e.start ++ e.data ++ held.drop (e.start + e.deleteCount)
+
+def applyTokEdits {α : Type} (held : List α) : List (Impl.TokEdit α) → List α
+  | [] => held
+  | e :: es => applyTokEdits (applyTokEdit held e) es
+
 end Spec
 
 /-- What the editor sends for a change computed on its buffer: the same range, the inserted text
@@ -401,6 +514,10 @@ def encodeEvent : Impl.Event → Spec.Event
   | .watchedChanged _ => .watchedChanged
   | .watchedDeleted => .watchedDeleted
 
+def encodeWEvent : Impl.WEvent → Spec.WEvent
+  | .doc u e => .doc u (encodeEvent e)
+  | .renamed o n _ => .renamed o n
+
 /-- The byte offset `len8 pre` of `pre ++ post` lies between the `\r` and the `\n` of a `\r\n`
 line end — the only character boundary that is not a position of the editor. -/
 def splitsCrlf (pre post : List Char) : Bool :=
@@ -415,5 +532,8 @@ def Agree (srv : Option Impl.Doc) (ed : Option Spec.Doc) : Prop :=
   | some e => ∃ d, srv = some d ∧ encode16 d.text = e.units ∧ d.version = e.version ∧
       d.isOpen = true ∧ d.analysed = d.text
   | none => ∀ d, srv = some d → d.isOpen = false
+
+/-- Pointwise agreement of the server's documents with the editor's. -/
+def AgreeAll (srv : Impl.Store) (ed : Spec.Store) : Prop := ∀ u, Agree (srv u) (ed u)
 
 end TrustVerif.C14
